@@ -295,9 +295,9 @@ pub fn tokenize(text: &str) -> RefDoc {
                 }
             }
             in_paragraph = false;
-            // a title line glued to a *foreign* code block is not compared (whether the block splits the paragraph is not
-            // defined); after a scrut block the next title line starts a new title
-            after_block = !is_scrut;
+            // a code block of any language ends the paragraph before it: a title line glued to its closing fence starts a
+            // new title
+            after_block = false;
             match close {
                 Some(j) => i = j + 1,
                 None => return doc,
